@@ -19,7 +19,7 @@ ROOT = os.path.dirname(os.path.dirname(os.path.abspath(__file__)))
 COQ = os.path.join(ROOT, "coq")
 HARNESS = os.environ.get("RV_HARNESS") or os.path.join(ROOT, "harness")   # RV_HARNESS: scratch copy used by tools/seed_confirm.sh
 RUNID = os.environ.get("RV_RUNID", "")          # private work directories for concurrent runs (seed slots, thorough sweeps)
-WORK = os.path.join(ROOT, "work" + ("-" + RUNID if RUNID else ""))
+WORK = os.path.join(ROOT, "work" + ("_" + RUNID if RUNID else ""))
 EVID = os.path.join(ROOT, "evidence")
 REPLAYS = os.path.join(ROOT, "replays")
 NPROC = 16
@@ -101,7 +101,7 @@ def print_assumptions(module, theorems):
     """Returns {theorem: 'closed' | [axioms] | 'missing'}."""
     os.makedirs(os.path.join(COQ, "_cases"), exist_ok=True)
     tag = hashlib.sha1((module + ",".join(theorems)).encode()).hexdigest()[:10]
-    path = os.path.join(COQ, "_cases", "assume_%s%s.v" % (tag, "-" + RUNID if RUNID else ""))
+    path = os.path.join(COQ, "_cases", "assume_%s%s.v" % (tag, "_" + RUNID if RUNID else ""))
     with open(path, "w") as f:
         f.write("From RV Require Import %s.\n" % module)
         for t in theorems:
@@ -212,7 +212,7 @@ def eval_cases(tag, module, fn, terms, casetype="case", per_shard=None, debug_fn
     """Evaluates `fn` on every term with vm_compute; returns list of ints (codes)."""
     if not terms:
         return []
-    d = os.path.join(COQ, "_cases", tag + ("-" + RUNID if RUNID else ""))
+    d = os.path.join(COQ, "_cases", tag + ("_" + RUNID if RUNID else ""))
     os.makedirs(d, exist_ok=True)
     for f in os.listdir(d):
         os.remove(os.path.join(d, f))
@@ -249,7 +249,7 @@ def eval_cases(tag, module, fn, terms, casetype="case", per_shard=None, debug_fn
 
 def eval_one(tag, module, expr):
     """Evaluates one expression and returns Coq's printed result (for replay files)."""
-    d = os.path.join(COQ, "_cases", tag + ("-" + RUNID if RUNID else ""))
+    d = os.path.join(COQ, "_cases", tag + ("_" + RUNID if RUNID else ""))
     os.makedirs(d, exist_ok=True)
     p = os.path.join(d, "one.v")
     with open(p, "w") as f:
